@@ -9,5 +9,6 @@ CONSTANTS
   Eager = FALSE
   Strict = FALSE
   Mut = "none"
+  Driver = "iour"
 SPECIFICATION Spec
 INVARIANTS TypeOK NoErr NoSteal CoveredModuloKnown CoveredStrict SlotSane BackedOK
